@@ -8,6 +8,20 @@ import ZodbModel.Demo
 namespace Proofs.Demo
 open ZodbModel ZodbModel.Demo
 
+/-- `omega` does not look through the abbreviations `Tid`/`Oid` (= `Nat`) -/
+macro "tomega" : tactic => `(tactic| ((try simp only [Tid, Oid] at *); omega))
+
+/-- decidable equality of results, so that concrete runs of the model can be checked by `decide` -/
+instance instDecidableEqExcept {ε α : Type} [DecidableEq ε] [DecidableEq α] :
+    DecidableEq (Except ε α) := fun a b =>
+  match a, b with
+  | .ok x, .ok y =>
+    if h : x = y then isTrue (by rw [h]) else isFalse (fun e => h (by injection e))
+  | .error x, .error y =>
+    if h : x = y then isTrue (by rw [h]) else isFalse (fun e => h (by injection e))
+  | .ok _, .error _ => isFalse (fun e => by cases e)
+  | .error _, .ok _ => isFalse (fun e => by cases e)
+
 /-- what a reader sees: a revision or nothing (`None` and POSKeyError both mean "no revision
     visible") -/
 def vis {α : Type} : Except Err (Option α) → Option α
@@ -432,12 +446,12 @@ theorem historyR_of_ne {r : List Rev} (h : r ≠ []) (n : Nat) :
 /-- `DemoStorage.history(oid, n)` for `n ≥ 1` is the history of the concatenated revisions (no
     hypothesis on tids: it is a statement about order only) -/
 theorem demoHistory_merge {hB : Nat → Except Err (List Tid)} {rb rc : List Rev} {n : Nat} (hn : 1 ≤ n)
-    (hb : ∀ m, hB m = historyR rb m) : demoHistory hB rc n = historyR (rb ++ rc) n := by
+    (hb : ∀ m, 1 ≤ m → hB m = historyR rb m) : demoHistory hB rc n = historyR (rb ++ rc) n := by
   unfold demoHistory
   by_cases hrc : rc = []
   · subst hrc
     simp only [historyR_nil, List.length_nil, Nat.sub_zero, List.append_nil]
-    rw [if_neg (by omega), hb]
+    rw [if_neg (by omega), hb n hn]
     cases historyR rb n <;> simp
   · rw [historyR_of_ne hrc]
     simp only
@@ -449,7 +463,7 @@ theorem demoHistory_merge {hB : Nat → Except Err (List Tid)} {rb rc : List Rev
     · rw [if_pos hm]
       have : n - rc.reverse.length = 0 := by simp; omega
       rw [this]; simp
-    · rw [if_neg hm, hb]
+    · rw [if_neg hm, hb _ (by omega)]
       have hnl : n - rc.reverse.length = n - min n rc.length := by simp; omega
       rw [hnl]
       by_cases hrb : rb = []
